@@ -220,8 +220,13 @@ Proof.
       - destruct (dict_get tgt reps) as [[|r rest]|]; inversion E; subst; try (destruct Hl'; fail).
         destruct Hl' as [<-|[]]. reflexivity. }
     rewrite R, F0, FC. reflexivity.
-  - unfold mod_links in Hin. apply in_flat_map in Hin. destruct Hin as ([lbl rs] & _ & Hm). cbn [snd] in Hm.
-    destruct rs as [|f rest]; [destruct Hm|]. apply in_map_iff in Hm. destruct Hm as (s & <- & _). reflexivity.
+  - apply in_app_or in Hin. destruct Hin as [Hin|Hin].
+    + unfold mod_links in Hin. apply in_flat_map in Hin. destruct Hin as ([lbl rs] & _ & Hm). cbn [snd] in Hm.
+      destruct rs as [|f rest]; [destruct Hm|]. apply in_map_iff in Hm. destruct Hm as (s & <- & _). reflexivity.
+    + unfold extra_links in Hin. apply in_flat_map in Hin. destruct Hin as ([lbl es] & _ & Hm). cbn [fst] in Hm.
+      destruct (members_of m ids lbl) as [|m1 [|m2 ms]]; try (destruct Hm; fail).
+      destruct (dict_get lbl reps) as [[|f rest]|]; try (destruct Hm; fail).
+      apply scope_extra_links in Hm. destruct Hm as (x & _ & ->). reflexivity.
 Qed.
 
 (* MRS -> DMRS -> MRS keeps the predications' predicates and constants, in order *)
